@@ -76,3 +76,20 @@ Definition cached_smooth_prog : prog :=
    result only through a cast into the current context *)
 Definition keyed_smooth_prog : prog :=
   mkprog [(vT, In_); (vK, Into T_ (Alt (Var vK) (Op (Op (Op PyI PyF) bare) PyI)))] [] [("out0", Op (Var vK) T_)].
+
+(* ---- estimator INSTANCES.  The fitted attributes of ONE estimator object (self.decomposition_, self.errors_, self.coef_ ...) are the persistent
+   variables of the session "the same object fitted again and again": what a fit stores is still there when the next fit starts.
+   fit_transform as every wrapper class of the library writes it: the result is computed from the data of THIS call, stored, then read back *)
+Definition vD := 21.   (* self.decomposition_ *)
+Definition vE := 22.   (* self.errors_ *)
+Definition fitted : list nat := [vD; vE].
+Definition refit_prog : prog :=
+  mkprog [(vT, In_); (vC, Op T_ PyF); (vD, C_); (vE, RealOf C_)] [] [("out0", Var vD)].
+(* ... with a warm start: `init = self.decomposition_ if hasattr(self, "decomposition_") else "svd"` - the previous fit's result, when there is
+   one, is the starting point of this fit (path-insensitively: the old value or a fresh one) *)
+Definition warm_refit_prog : prog :=
+  mkprog [(vT, In_); (vC, Alt (Var vD) (Op T_ PyF)); (vD, Op C_ T_); (vE, RealOf C_)] [] [("out0", Var vD)].
+(* ... the same warm start read through a cast into the context of the current data: harmless *)
+Definition cast_warm_refit_prog : prog :=
+  mkprog [(vT, In_); (vC, Into T_ (Alt (Var vD) (Op T_ PyF))); (vD, Op C_ T_); (vE, RealOf C_)] [] [("out0", Var vD)].
+Definition fit_call (p : prog) (t : dt) : call := mkcall (mkenv t t) p 0.
